@@ -215,13 +215,13 @@ fn family_nth(i: u64, reps: u32) -> Option<Case> {
 }
 
 pub fn run(ctx: &Ctx) {
-    ctx.set_rule("E5 randomised stress with a sequential oracle: scenarios = one shared Parser with a lazy partial store (valid, large, broken and missing partials nobody has touched yet; 100 small partials all used by one template; names resolved through the `.liquid` fallback for one datum and directly for another; one template writing 12 KB) + a template rejected through the error-reporting path and a 45 KB template, parsed concurrently + templates parsed once and shared by reference (stateful constructs: cycle, increment, ifchanged, capture, break/continue, include/render); T in {2, 3, 4, 8, 16} threads released together by a barrier, each performing 3..17 parse/render calls, with per-thread start skews and yield injection, every scenario repeated R times (quick 20, thorough 200) on a fresh parser so that the first simultaneous use of the lazy cache happens every time. Oracle: every concurrent call's result equals the same call executed alone on a fresh parser; all threads terminate within 20 s; afterwards the used parser answers like a fresh one; no panic. evaluations counts concurrent calls; non-trivial = >= 2 threads render the same shared template; distinct by (templates, per-thread call lists, thread count).");
+    ctx.set_rule("E5 randomised stress with a sequential oracle: scenarios = one shared Parser with a lazy partial store (valid, large, broken and missing partials nobody has touched yet; 100 small partials all used by one template; names resolved through the `.liquid` fallback for one datum and directly for another; one template writing 12 KB) + a template rejected through the error-reporting path and a 45 KB template, parsed concurrently + templates parsed once and shared by reference (stateful constructs: cycle, increment, ifchanged, capture, break/continue, include/render); T in {2, 3, 4, 8, 16} threads released together by a barrier, each performing 3..17 parse/render calls, with per-thread start skews and yield injection, every scenario repeated R times (quick 20, thorough 60) on a fresh parser so that the first simultaneous use of the lazy cache happens every time. Oracle: every concurrent call's result equals the same call executed alone on a fresh parser; all threads terminate within 20 s; afterwards the used parser answers like a fresh one; no panic. evaluations counts concurrent calls; non-trivial = >= 2 threads render the same shared template; distinct by (templates, per-thread call lists, thread count).");
     ctx.assume("the harness does not control the scheduler: a race needing a window of a few instructions can be missed (see DESIGN 4.20 / 7)");
-    let reps = ctx.pick(20, 200);
+    let reps = ctx.pick(20, 60);
     // sub-checks run their cases on the 16 engine shards in parallel; each case itself spawns
     // up to 16 threads, which oversubscribes the cores and varies the interleavings further
     ctx.exhaustive("family_stress", c09::family().len() as u64 * 5 * 8, move |i| family_nth(i, reps), oracle);
-    ctx.random("random_stress", ctx.pick(200, 2_000), move || {
+    ctx.random("random_stress", ctx.pick(200, 800), move || {
         (0usize..c09::family().len(), proptest::sample::select(vec![2usize, 3, 4, 8, 16]), 3usize..20, any::<u64>()).prop_map(move |(w, t, n, seed)| family_case(w, t, n, reps.min(40), seed))
     }, oracle);
     let stalls = STALLS.load(Ordering::Relaxed);
